@@ -170,7 +170,7 @@ def SEQ (o : MD6) (M : List Nat) (bitlen : Option Nat) : Except Err (List Nat) :
 /-! ### `__call__`: the level loop -/
 
 /-- `while 1: l += 1; …` — `fuel` bounds the number of iterations (`M.length + 1` always suffices, see
-    `Proofs.C17.call_terminates`); entering with `l` = the value BEFORE the increment -/
+    `Proofs.C17.md6_refines`: the call returns a value); entering with `l` = the value BEFORE the increment -/
 def levelLoop (o : MD6) : Nat → Nat → List Nat → Option Nat → Except Err (List Nat)
   | 0, _, _, _ => .error "hang:level loop"
   | fuel + 1, l, M, bitlen =>
